@@ -379,7 +379,7 @@ func (fe *FnEnc) applyContract(st *State, instr ssa.Instruction, fc *FuncContrac
 	env := fe.callEnv(pre, st, fc, callee, args, bindings, rets)
 	for i := range fc.Ensures {
 		cl := &fc.Ensures[i]
-		fe.assume(st, fe.trBool(cl.E, env))
+		fe.assumeFlagged(st, fmt.Sprintf("call.%s@%d.%s", fc.Key, fe.callOrd[fc.Key], cl.Label), fe.trBool(cl.E, env))
 	}
 	if fc.Trusted {
 		fe.assumed["trusted contract: "+fc.Key] = true
@@ -506,26 +506,39 @@ func (fe *FnEnc) applyIfaceContract(st *State, instr ssa.Instruction, cf *Contra
 
 // callCallback: call through a function-typed struct field with a callback contract
 func (fe *FnEnc) callCallback(st *State, instr ssa.Instruction, common *ssa.CallCommon, fnRV RV, args []RV, res ssa.Value) bool {
-	// find the field the function value was loaded from
-	ld, ok := common.Value.(*ssa.UnOp)
-	if !ok || ld.Op != token.MUL {
+	// either a named function type with a callback contract, or a function-typed struct field
+	var key, fname string
+	var ownerV ssa.Value
+	if n, ok := types.Unalias(common.Value.Type()).(*types.Named); ok {
+		key, fname = n.Obj().Name(), n.Obj().Name()
+	}
+	if ld, ok := common.Value.(*ssa.UnOp); ok && ld.Op == token.MUL {
+		if fa, ok := ld.X.(*ssa.FieldAddr); ok {
+			stT := fa.X.Type().Underlying().(*types.Pointer).Elem()
+			k2 := recvTypeName(stT) + "." + structOf(stT).Field(fa.Field).Name()
+			for _, k := range sortedKeys(fe.c.contracts) {
+				if fc, ok := fe.c.contracts[k].Funcs[k2]; ok && fc.IsCB {
+					key, fname, ownerV = k2, structOf(stT).Field(fa.Field).Name(), fa.X
+				}
+			}
+		}
+	}
+	if key == "" {
 		return false
 	}
-	fa, ok := ld.X.(*ssa.FieldAddr)
-	if !ok {
-		return false
-	}
-	stT := fa.X.Type().Underlying().(*types.Pointer).Elem()
-	tn := recvTypeName(stT)
-	fname := structOf(stT).Field(fa.Field).Name()
 	sig := common.Signature()
 	for _, k := range sortedKeys(fe.c.contracts) {
 		cf := fe.c.contracts[k]
-		fc, ok := cf.Funcs[tn+"."+fname]
+		fc, ok := cf.Funcs[key]
 		if !ok || !fc.IsCB {
 			continue
 		}
-		owner := fe.get(st, fa.X)
+		var owner RV
+		var ownerT types.Type
+		if ownerV != nil {
+			owner = fe.get(st, ownerV)
+			ownerT = ownerV.Type()
+		}
 		ws := newWriteSet()
 		for _, m := range fc.Modifies {
 			if m == "*" {
@@ -547,9 +560,11 @@ func (fe *FnEnc) callCallback(st *State, instr ssa.Instruction, common *ssa.Call
 			if p := fe.c.pkgs[cf.Pkg]; p != nil {
 				env.pkg = p.Pkg
 			}
-			sv := SVal{T: fe.val(owner), Typ: fa.X.Type()}
-			env.names[fc.RecvName] = sv
-			env.oldNames[fc.RecvName] = sv
+			if ownerV != nil {
+				sv := SVal{T: fe.val(owner), Typ: ownerT}
+				env.names[fc.RecvName] = sv
+				env.oldNames[fc.RecvName] = sv
+			}
 			for i, a := range args {
 				if i < len(fc.Params) {
 					v := SVal{T: fe.val(a), Typ: sig.Params().At(i).Type()}
